@@ -6,6 +6,7 @@ import (
 	"runtime"
 	"sync"
 	"testing"
+	"time"
 
 	"github.com/agglayer/aggkit/aggsender"
 	aggsendertypes "github.com/agglayer/aggkit/aggsender/types"
@@ -261,6 +262,77 @@ func TestC18(t *testing.T) {
 			for k := 1; k <= len(blocks); k++ {
 				check(fmt.Sprintf("rand/%d/%d/%d", w, i, k), c, blocks[:k], "rand")
 			}
+		}
+	})
+
+	// delivery through the real GenericSubscriberImpl to a subscriber that is busy for several
+	// epochs and only reads afterwards: every epoch must still arrive exactly once (order is a
+	// matter of scheduling and is not judged)
+	nSlow := r.N(300, 6000)
+	parallel(workers, workers, func(w int) {
+		g := rng(r, "slow", w)
+		for i := 0; i < nSlow/workers; i++ {
+			caseID := fmt.Sprintf("slow-subscriber/%d/%d", w, i)
+			if !r.Only(caseID) {
+				continue
+			}
+			c := cfg{n: uint(1 + g.Intn(12)), start: uint64(g.Intn(50)), p: uint(g.Intn(100))}
+			var blocks []uint64
+			cur := c.start
+			for k := 2 + g.Intn(10); k > 0; k-- {
+				cur += 1 + uint64(g.Intn(int(2*c.n)+1))
+				blocks = append(blocks, cur)
+			}
+			sc := map[string]any{"N": c.n, "start": c.start, "P": c.p, "blocks": blocks}
+			guard(r, caseID, sc, func() {
+				bn := &c18BlockNotifier{ch: make(chan aggsendertypes.EventNewBlock)}
+				sub := aggsender.NewGenericSubscriberImpl[aggsendertypes.EpochEvent]()
+				en, err := aggsender.NewEpochNotifierPerBlock(bn, log.WithFields("m", "c18"),
+					aggsender.ConfigEpochNotifierPerBlock{StartingEpochBlock: c.start, NumBlockPerEpoch: c.n, EpochNotificationPercentage: c.p}, sub)
+				if err != nil {
+					r.Inconclusive("notifier: " + err.Error())
+					return
+				}
+				ch := en.Subscribe("slow")
+				ctx, cancel := context.WithCancel(context.Background())
+				done := make(chan struct{})
+				go func() { en.Start(ctx); close(done) }()
+				for _, b := range blocks {
+					bn.ch <- aggsendertypes.EventNewBlock{BlockNumber: b}
+				}
+				cancel()
+				<-done
+				want := c18Ref(c.start, c.n, c.p, blocks)
+				got := map[uint64]int{}
+				n := 0
+				for n < len(want)+2 {
+					// missing events are waited for generously (the senders are goroutines that are
+					// already blocked on the channel), surplus ones briefly
+					wait := 10 * time.Second
+					if n >= len(want) {
+						wait = 100 * time.Millisecond
+					}
+					select {
+					case e := <-ch:
+						got[e.Epoch]++
+						n++
+						continue
+					case <-time.After(wait):
+					}
+					break
+				}
+				ok := n == len(want)
+				for _, ep := range want {
+					if got[ep] != 1 {
+						ok = false
+					}
+				}
+				if !ok {
+					r.Violation("C18:slow-subscriber:epochs-not-delivered-exactly-once", caseID, fmt.Sprintf("a subscriber that reads only after all blocks received epochs %v, expected each of %v exactly once", got, want), sc)
+					return
+				}
+				r.Eval(fmt.Sprintf("slow-subscriber/events=%d", min(len(want), 5)))
+			})
 		}
 	})
 
